@@ -122,11 +122,28 @@ RULE = ('unions with 1..3 fields over {u8, [u8;1], [u8;2], u16, [u8;4], u32, [u8
         '{all together, each alone}; values: every byte pattern for sizes 1 and 2, each byte over {00, 01, FF} above; Debug against '
         'debug_tuple(name).field(&bytes) / the bare slice in both formats, == against byte equality on all pairs of the pair domain '
         '(all 65 536 pairs for size 1), the recorded Hasher trace against hashing the byte slice, clone bitwise, Copy probed; Clone '
-        'on a union over ManuallyDrop<T> must not apply to a non-Copy T; Default initialises the designated field')
+        'on a union over ManuallyDrop<T> must not apply to a non-Copy T; Default initialises the designated field; the `unsafe` marker: every marker-less form (bare, empty list in each delimiter, name-only, `unsafe` not first) of Debug / PartialEq / Hash on a union must be refused with a diagnostic')
+
+
+def reject_cases():
+    out = []
+    for fields, tag in (('a: u8', 'u1'), ('a: u8, b: u16', 'u2'), ('a: [u8; 4], b: u32, c: u16', 'u3')):
+        for t in ('Debug', 'PartialEq', 'Hash'):
+            forms = [t, '%s()' % t, '%s[]' % t, '%s{}' % t, '%s(,)' % t]
+            if t == 'Debug':
+                forms += ['Debug = Zz', 'Debug(name = Zz)', 'Debug(name = false)', 'Debug(name(Zz),)', 'Debug(name = Zz, unsafe)', 'Debug(name = false, unsafe)', 'Debug(name(Zz), unsafe,)']
+            for f in forms:
+                host = {'PartialEq': [f], 'Hash': [f], 'Debug': [f]}[t]
+                for extra in ([], ['Copy', 'Clone']):
+                    src = '#[derive(Educe)]\n#[educe(%s)]\npub union Ty { %s }\n' % (', '.join(extra + host), fields)
+                    out.append(Case('C20|reject|%s|%s|%s' % (tag, f, '+'.join(extra)), src, {'attribute': f, 'fields': fields}, expect='reject', run=False, depth=1))
+    return out
 
 
 def check(v, tier):
     from .common import run_behavioural
     cases = generate(tier)
     run_behavioural(v, cases, 'C20', nontrivial_min=2, min_nontrivial_ratio=0.7, shard_size=12 if tier == 'quick' else 4, run_timeout=3000)
+    from .common import run_rejects
+    run_rejects(v, reject_cases(), 'C20')
     return v.finish(RULE, {'bounds': {'tier': tier, 'fields': 3, 'max_size': 8}})
